@@ -40,11 +40,11 @@ A_CAP = 0.25  # the finite-particle allowance may not exceed a quarter of a post
 def cells_for(tier, seed):
     rng = np.random.default_rng([seed, 101])
     fams = list(ens.FAMILIES)
-    n = 16 if tier == "quick" else 48
+    n = 18 if tier == "quick" else 54
     cells = []
     for i in range(n):
         fam = fams[i % len(fams)]
-        kernel = ["tpcn", "rwm"][(i // len(fams) + i) % 2]
+        kernel = ["tpcn", "rwm"][(i // len(fams) + i) % 2] if fam != "mixed" else "rwm"  # (tpCN x folding is finding K1)
         cells.append(ens.make_cell(int(rng.integers(0, 2**31 - 1)), family=fam, kernel=kernel, clustering=bool((i // 2 + i // len(fams)) % 2),
                                    resample=["mult", "syst"][(i + i // len(fams)) % 2] if fam != "narrow" else ["syst", "mult"][(i // len(fams)) % 2],
                                    N=64 if (tier == "quick" or i % 3) else 256))
